@@ -717,7 +717,25 @@ pub fn gen_for(suite: &str, tier: &str, rng: &mut Rng, emit: &mut dyn FnMut(Stri
         "c08" => {
             let lo = ymd(1900, 1, 1);
             let hi = ymd(9999, 12, 31) + 1;
-            let special = ["9999", "1900-1901", "Dec 31 +1 day", "week 53", "2020+", "9999 Dec 31", "1900 Jan 1", "Jan 1 -1 day", "24/7", "Mo-Su 00:00-24:00 open", "9998-9999 Dec 31 22:00-26:00", "1900 Jan 1 00:00-01:00", "Dec 31 20:00-30:00", "9999 Dec 20+", "PH"];
+            let special = ["9999", "1900-1901", "Dec 31 +1 day", "week 53", "2020+", "9999 Dec 31", "1900 Jan 1", "Jan 1 -1 day", "24/7", "Mo-Su 00:00-24:00 open", "9998-9999 Dec 31 22:00-26:00", "1900 Jan 1 00:00-01:00", "Dec 31 20:00-30:00", "9999 Dec 20+", "PH",
+                "open", "24/7 unknown", "Jan-Dec", "Dec-Jan", "Nov-Feb", "Dec 31-Jan 01 unknown", "Dec 24-Jan 2", "Dec 31", "Jan 1", "1900", "1900-1950/10", "week 52-1", "week 1", "Su,Mo", "Dec 31-Jan 1 22:00-26:00"];
+            // the eve and the first days of the supported range, the last days and the first day after it:
+            // every special expression x every entry point x several times of day (a deterministic sweep)
+            for e in special.iter() {
+                let ee = enc(e);
+                let ctx = if e.contains("PH") { format!("ph={},{},{}", lo - 1, lo, hi - 1) } else { "-".to_string() };
+                for day in [lo - 2, lo - 1, lo, lo + 1, hi - 2, hi - 1, hi] {
+                    for ns in [0i64, 1, 43_200_000_000_000, 86_340_000_000_000, 86_399_999_999_999] {
+                        let t = format!("{day}:{ns}");
+                        emit(format!("c08.state {t} {ctx} {ee}"));
+                        emit(format!("c08.iter {t} {} {ctx} {ee}", add_ns(&t, 86_400_000_000_000 * 40).unwrap_or_else(|| t.clone())));
+                        let l = format!("c08.next {t} {ctx} {ee}");
+                        if answers_within(&l, 20) {
+                            emit(l);
+                        }
+                    }
+                }
+            }
             for i in 0..scale(2_000, 40_000) {
                 let e = if i % 3 == 0 { rng.pick(&special).to_string() } else { gen_expr::expr(rng, &cfg) };
                 let ee = enc(&e);
